@@ -158,6 +158,25 @@ class CFG:
     def exits(self, kind="return"):
         return [b.idx for b in self.blocks if not b.cleanup and b.term.k == kind and b.idx in self.live_blocks()]
 
+    def reach_forward(self, i):
+        """blocks reachable from i without following back edges (u -> v with v dominating u): the part of the function that
+        lies ahead of i in one iteration of any enclosing loop"""
+        key = ("fwd", i)
+        if key in self._reach:
+            return self._reach[key]
+        seen = set()
+        dq = deque([i])
+        while dq:
+            x = dq.popleft()
+            if x in seen:
+                continue
+            seen.add(x)
+            for s_ in self.succ[x]:
+                if s_ not in seen and not self.dominates(s_, x):
+                    dq.append(s_)
+        self._reach[key] = seen
+        return seen
+
     def must_pass(self, through, src=0, dsts=None, cut=None):
         """every path src ->* dst (dst in dsts, default: returns) passes a block in `through`.
         `cut` blocks are removed from the graph (e.g. error edges)."""
